@@ -243,13 +243,13 @@ func DecodeProgram(data []byte) (_ *Program, err error) {
 
 	loads := d.bindings()
 
-	names := make([]string, d.int())
+	names := make([]string, d.count())
 	for i := range names {
 		names[i] = d.string()
 	}
 
 	// constants
-	constants := make([]any, d.int())
+	constants := make([]any, d.count())
 	for i := range constants {
 		var c any
 		switch d.int() {
@@ -269,7 +269,7 @@ func DecodeProgram(data []byte) (_ *Program, err error) {
 
 	globals := d.bindings()
 	toplevel := d.function()
-	funcs := make([]*Funcode, d.int())
+	funcs := make([]*Funcode, d.count())
 	for i := range funcs {
 		funcs[i] = d.function()
 	}
@@ -306,6 +306,18 @@ func (d *decoder) int() int {
 	return int(d.int64())
 }
 
+// count decodes the length of a sequence. Every element of every sequence
+// occupies at least one byte of the encoded program, so a length greater
+// than the number of bytes remaining is corrupt; reject it before trying
+// to allocate (or iterate over) a slice of that size.
+func (d *decoder) count() int {
+	n := d.int()
+	if n < 0 || n > len(d.p) {
+		panic(fmt.Sprintf("invalid sequence length %d (%d bytes remain)", n, len(d.p)))
+	}
+	return n
+}
+
 func (d *decoder) int64() int64 {
 	x, len := binary.Varint(d.p[:])
 	d.p = d.p[len:]
@@ -340,7 +352,7 @@ func (d *decoder) binding() Binding {
 }
 
 func (d *decoder) bindings() []Binding {
-	bindings := make([]Binding, d.int())
+	bindings := make([]Binding, d.count())
 	for i := range bindings {
 		bindings[i] = d.binding()
 	}
@@ -348,7 +360,7 @@ func (d *decoder) bindings() []Binding {
 }
 
 func (d *decoder) ints() []int {
-	ints := make([]int, d.int())
+	ints := make([]int, d.count())
 	for i := range ints {
 		ints[i] = d.int()
 	}
@@ -361,7 +373,7 @@ func (d *decoder) function() *Funcode {
 	id := d.binding()
 	doc := d.string()
 	code := d.bytes()
-	pclinetab := make([]uint16, d.int())
+	pclinetab := make([]uint16, d.count())
 	for i := range pclinetab {
 		pclinetab[i] = uint16(d.int())
 	}
